@@ -73,9 +73,10 @@ theorem raw_entry_insert_cost (c : Cfg) (hR : 0 < c.R) (m : Map) (k kid v vid ad
       r.2.cost.hashes ≤ c.R + 2 ∧ r.2.cost.moved ≤ c.R ∧ r.2.cost.allocs ≤ 1) := by
   unfold Map.entryChain Map.lookupState
   simp only [habs, Map.chainLoop, Map.chainStep, if_true, Bool.false_eq_true, if_false, Option.getD]
+  generalize o.digit (c.R + 2) = o'
   have hfresh : k ∉ keysOf m.ents := (find_none_iff h k).1 habs
-  have hs := Raw.insert_spec c hR m { k := k, kid := kid, v := v + add, vid := vid } o.hits o.perm h hfresh
-  generalize Raw.insert c m { k := k, kid := kid, v := v + add, vid := vid } o.hits o.perm = res at hs ⊢
+  have hs := Raw.insert_spec c hR m { k := k, kid := kid, v := v + add, vid := vid } o'.hits o'.perm h hfresh
+  generalize Raw.insert c m { k := k, kid := kid, v := v + add, vid := vid } o'.hits o'.perm = res at hs ⊢
   cases res with
   | error f => simpa [OkOrCap] using hs
   | ok r =>
@@ -93,9 +94,10 @@ theorem entry_insert_cost (c : Cfg) (hR : 0 < c.R) (m : Map) (k kid v vid add : 
       r.2.cost.hashes ≤ c.R + 1 ∧ r.2.cost.moved ≤ c.R ∧ r.2.cost.allocs ≤ 1) := by
   unfold Map.entryChain Map.lookupState
   simp only [habs, Map.chainLoop, Map.chainStep, if_true, Bool.false_eq_true, if_false, Option.getD]
+  generalize o.digit (c.R + 2) = o'
   have hfresh : k ∉ keysOf m.ents := (find_none_iff h k).1 habs
-  have hs := Raw.insert_spec c hR m { k := k, kid := kid, v := v + add, vid := vid } o.hits o.perm h hfresh
-  generalize Raw.insert c m { k := k, kid := kid, v := v + add, vid := vid } o.hits o.perm = res at hs ⊢
+  have hs := Raw.insert_spec c hR m { k := k, kid := kid, v := v + add, vid := vid } o'.hits o'.perm h hfresh
+  generalize Raw.insert c m { k := k, kid := kid, v := v + add, vid := vid } o'.hits o'.perm = res at hs ⊢
   cases res with
   | error f => simpa [OkOrCap] using hs
   | ok r =>
